@@ -1214,6 +1214,7 @@ def run_history(ctx, env, hno, layout, ext, ext_missing, seed, n_random, stats, 
                 with open(os.path.join(a_["root"], OBJ_DECL + step["version"]), "w") as f:
                     f.write("ocfl_object_%s\n" % step["version"])
                 pre = w.state()
+                valid.pop(a_["root"], None)        # changed by the driver, not by rocfl: no longer "valid before"
             n += 1
             continue
         if step["op"] == "plant":
